@@ -111,6 +111,8 @@ def run(ctx):
                 {'kind': 'cart', 'pat': list(it[1]), 'version': it[6], 'code': list(it[5]), 'label': bool(it[3])})
     ctx.sample({'cart': 1, 'version': items[1][6], 'label': bool(items[1][3]), 'code': items[1][5][:40].decode('latin1'), 'verdict': v[1][0] if len(v) > 1 else ''})
     cli(ctx)
+    from .. import system
+    system.run(ctx, 'C03')
 
 
 def cli(ctx):
